@@ -625,3 +625,19 @@ Proof.
     destruct (valid_signature hi u (q_sig q) (q_ts q) (c_secret c)) eqn:Eh; [|reflexivity].
     rewrite (valid_signature_antitone mid hi _ _ _ _ H2 Eh) in Em. discriminate.
 Qed.
+
+(* ================================================================== the outermost handler *)
+(* NewAuthenticatorMux adds no redirect of its own: a redirect (or a login start) comes from a
+   route of the authenticator, for a request whose Host header is exactly the configured one *)
+Theorem outer_redirect_from_route c sh rh p now w o :
+  outer_serve c sh rh p now w = o ->
+  (exists src hw, o = ORedirect src hw) \/ (exists a, o = OIdP a) ->
+  exists ep, p = OpRoute ep /\ rh = sh /\ serve_wire c now ep w = o.
+Proof.
+  intros H Ho. unfold outer_serve in H. destruct p as [| |ep].
+  - subst o. destruct Ho as [[? [? Ho]]|[? Ho]]; discriminate Ho.
+  - destruct (str_eqb rh sh); subst o; destruct Ho as [[? [? Ho]]|[? Ho]]; discriminate Ho.
+  - destruct (str_eqb rh sh) eqn:E.
+    + exists ep. apply str_eqb_eq in E. auto.
+    + subst o. destruct Ho as [[? [? Ho]]|[? Ho]]; discriminate Ho.
+Qed.
